@@ -26,6 +26,7 @@ Inductive sop :=
 | SOp (o : cop)
 | SPair (n : Z) (ents : list ent) (b : cop) (reached blocked : bool)
 | SPairC (n : Z) (ents : list ent) (b : cop) (reached blocked : bool)   (* actor 1 held at batch.beforeIdCommit *)
+| SPubM (l : list (Z * option Z))      (* several meta entities posted to core.Dataset in one batch *)
 | SDetails (names : list Z) (obs : snapshot).
 Definition tcase := list sop.
 
@@ -105,6 +106,7 @@ Fixpoint agree_run (fl : cflags) (k : cat) (ops : list sop) : bool :=
     Bool.eqb (pairc_reached k n ents) reached
     && Bool.eqb (pairc_reached k n ents && needs_lock n b) blocked
     && agree_run fl (do_pairc fl k n ents b) ops'
+  | SPubM l :: ops' => agree_run fl (do_setpubm fl k l) ops'
   | SDetails names obs :: ops' => snapshot_eqb (predict k names) obs && agree_run fl k ops'
   end.
 Definition agree (fl : cflags) (c : tcase) : bool := agree_run fl (cat_init fl) c.
@@ -156,6 +158,7 @@ Fixpoint first_bad (fl : cflags) (k : cat) (ops : list sop) (i : N) : option (N 
     if Bool.eqb (pairc_reached k n ents) reached && Bool.eqb (pairc_reached k n ents && needs_lock n b) blocked
     then first_bad fl (do_pairc fl k n ents b) ops' (N.succ i)
     else Some (i, predict k [])
+  | SPubM l :: ops' => first_bad fl (do_setpubm fl k l) ops' (N.succ i)
   | SDetails names obs :: ops' =>
     if snapshot_eqb (predict k names) obs then first_bad fl k ops' (N.succ i) else Some (i, predict k names)
   end.
